@@ -72,7 +72,7 @@ except Exception as e:  # noqa: BLE001
 if coll is not None:
     backend = simbackend.CLASSES[sc["cls"]](pipeline, collect_errors=True)
     try:
-        res = backend.convert(coll, sc.get("format", "default"))
+        res = backend.convert(coll, sc.get("format", "default"), sc.get("correlation_method"))
         out["convert"] = {"ok": res if isinstance(res, (str, list)) else repr(res)}
     except Exception as e:  # noqa: BLE001
         out["convert"] = rec(e)
